@@ -907,3 +907,145 @@ def peg_row_witness(rows, op, gadget_op):
         words += [nchar, 0, lit, 12, gadget_op, 0x7FFFFFF0, 0]
         out.append((words, 1, "target=%s" % tgt))
     return out
+
+
+# ------------------------------------------------------------------------------------------------ deep nesting
+# One image family per RECURSIVE EDGE of the unmarshaller (every call site of unmarshal_one / _def / _env / _fiber /
+# _abstract / janet_unmarshal_janet in marsh.c): `prefix * n + leaf + suffix * n`, built without recursion so that n can be
+# far beyond JANET_RECURSION_GUARD.  On a tree whose depth counter works every image deeper than the guard is rejected with
+# "stack overflow" (and the byte-level Lean model must name the same n at which acceptance turns into rejection); on a tree
+# where one of the edges forgets to count, the 10^5-deep image overflows the C stack.
+def deep_edges(lb, ops, peg_constant_op=None):
+    """[(edge name, head, prefix, leaf, suffix)] ; image(n) = head + prefix * n + leaf + suffix * n"""
+    bn = ops.by_name
+    L = lambda k: bytes([lb[k]])
+    nil = L("LB_NIL")
+    retn = struct.pack("<I", bn["JOP_RETURN_NIL"])
+    i0 = pushint(0)
+
+    def defhdr(flags, slots=1, nconst=0, nenvs=None, ndefs=None):
+        o = pushint(flags) + pushint(slots) + i0 + i0 + pushint(0x7fffffff) + pushint(nconst) + pushint(1)
+        if nenvs is not None:
+            o += pushint(nenvs)
+        if ndefs is not None:
+            o += pushint(ndefs)
+        return o
+    plain_def = defhdr(0) + retn                                   # no constants, `retn`
+    env_def = defhdr(FLAG_HASENVS, nenvs=1) + retn + pushint(-1)   # one environment slot
+    fn_plain = L("LB_FUNCTION") + i0 + plain_def
+    dead_fiber = L("LB_FIBER") + i0 + i0 + pushint(4) + pushint(4) + pushint(10)          # + last_value
+    # a dead fiber with one entrance frame of a 1-slot function: flags frame=4 stackstart=9 stacktop=9 maxstack=20
+    fr_hdr = L("LB_FIBER") + i0 + pushint(4) + pushint(9) + pushint(9) + pushint(20)
+    sym = lambda s: L("LB_SYMBOL") + pushint(len(s)) + s
+    E = []
+    E.append(("array-element", b"", L("LB_ARRAY") + pushint(1), nil, b""))
+    E.append(("tuple-element", b"", L("LB_TUPLE") + pushint(1) + i0, nil, b""))
+    E.append(("struct-key", b"", L("LB_STRUCT") + pushint(1), nil, pushint(1)))
+    E.append(("struct-value", b"", L("LB_STRUCT") + pushint(1) + pushint(1), nil, b""))
+    E.append(("struct-proto", b"", L("LB_STRUCT_PROTO") + i0, L("LB_STRUCT") + i0, b""))
+    E.append(("table-key", b"", L("LB_TABLE") + pushint(1), pushint(7), pushint(1)))
+    E.append(("table-value", b"", L("LB_TABLE") + pushint(1) + pushint(1), nil, b""))
+    E.append(("table-proto", b"", L("LB_TABLE_PROTO") + i0, L("LB_TABLE") + i0, b""))
+    E.append(("weak-array-element", b"", L("LB_ARRAY_WEAK") + pushint(1), nil, b""))
+    E.append(("weak-table-proto", b"", L("LB_TABLE_WEAKKV_PROTO") + i0, L("LB_TABLE") + i0, b""))
+    # function -> funcdef constant -> function ...
+    E.append(("funcdef-constant", b"", L("LB_FUNCTION") + i0 + defhdr(0, nconst=1), nil, retn))
+    # funcdef -> sub-funcdef -> ...   (flags HASDEFS, one sub-def each; the innermost is a plain def)
+    E.append(("funcdef-subdef", L("LB_FUNCTION") + i0, defhdr(FLAG_HASDEFS, ndefs=1) + retn, plain_def, b""))
+    # function -> off-stack environment value -> function ... ; the funcdef is shared through LB_FUNCDEF_REF
+    E.append(("function-env-value", L("LB_FUNCTION") + pushint(1) + env_def + i0 + pushint(1),
+              L("LB_FUNCTION") + pushint(1) + L("LB_FUNCDEF_REF") + i0 + i0 + pushint(1), nil, b""))
+    # function -> on-stack environment -> fiber -> last_value -> function ...
+    E.append(("function-env-fiber", L("LB_FUNCTION") + pushint(1) + env_def + pushint(1) + pushint(1) + dead_fiber,
+              L("LB_FUNCTION") + pushint(1) + L("LB_FUNCDEF_REF") + i0 + pushint(1) + pushint(1) + dead_fiber, nil, b""))
+    E.append(("fiber-last-value", b"", dead_fiber, nil, b""))
+    E.append(("fiber-child", b"", L("LB_FIBER") + pushint(FIBER_HASCHILD) + i0 + pushint(4) + pushint(4) + pushint(10), dead_fiber + nil, nil))
+    E.append(("fiber-env-table", b"", L("LB_FIBER") + pushint(FIBER_HASENV) + i0 + pushint(4) + pushint(4) + pushint(10) + L("LB_TABLE") + pushint(1) + pushint(1), nil, nil))
+    # fiber frame: flags=ENTRANCE prevframe=0 pc=0 fn, 1 slot
+    E.append(("fiber-frame-slot", b"", fr_hdr + pushint(2) + i0 + i0 + fn_plain, nil, nil))
+    # fiber frame function -> constant of its funcdef -> fiber ...
+    E.append(("fiber-frame-function", b"", fr_hdr + pushint(2) + i0 + i0 + L("LB_FUNCTION") + i0 + defhdr(0, nconst=1), nil, retn + nil + nil))
+    # fiber frame environment (off-stack values) -> fiber ...
+    E.append(("fiber-frame-env", b"", fr_hdr + pushint(2 | FRAME_HASENV) + i0 + i0 + fn_plain + i0 + pushint(1), nil, nil + nil))
+    # abstract payloads: channel items, peg constants
+    E.append(("channel-item", b"", L("LB_ABSTRACT") + sym(b"core/channel") + bytes([0, 0]) + pushint(10) + pushint(1), nil, b""))
+    if peg_constant_op is not None:     # bytecode `constant 0 tag=0` (3 words), one constant
+        E.append(("peg-constant", b"", L("LB_ABSTRACT") + sym(b"core/peg") + push64(3) + pushint(1) + pushint(peg_constant_op) + i0 + i0, nil, b""))
+    return E
+
+
+def deep_image(edge, n):
+    name, head, pre, leaf, suf = edge
+    return head + pre * n + leaf + suf * n
+
+
+# ------------------------------------------------------------------------------------------------ modelled function images
+# Function images inside the domain of the Lean acceptance model `acceptFunction` (Unmarsh/Image.lean): a verified top
+# funcdef with k environment slots (+ optionally one sub-funcdef with its own slots) and a function header announcing `len`
+# environments.  The only fields that vary are the ones the model talks about: len, k, the environment indices of both
+# defs - so the only reasons for rejection are "expected k environments, got len" and "invalid funcdef environment index".
+MODEL_ENV_INDICES = [-1, -1, 0, 1, 2, -2, -3, -256, -8192, -8193, -2 ** 31, 255, 8192, 2 ** 31 - 1]
+
+
+def gen_model_function(rng, ops):
+    k = rng.choice([0, 1, 1, 2, 3, 5])
+    m = dict(len=k, envs=[rng.choice([-1, 0, 1, 2]) for _ in range(k)], sub=None)
+    if rng.chance(1, 2):
+        m["sub"] = [rng.choice([-1, 0, 1]) for _ in range(rng.choice([0, 1, 2]))]
+    return m
+
+
+def mutate_model_function(rng, m):
+    what = rng.choice(["len", "len", "k", "idx", "idx", "idx", "sub-idx", "none"])
+    if what == "len":
+        d = rng.choice([-2, -1, 1, 2, 7])
+        m["len"] = min(255, max(0, m["len"] + d))
+        return "len%+d" % d
+    if what == "k":
+        if m["envs"] and rng.chance(1, 2):
+            m["envs"].pop()
+            return "k-1"
+        m["envs"].append(rng.choice([-1, 0]))
+        return "k+1"
+    if what == "idx" and m["envs"]:
+        v = rng.choice(MODEL_ENV_INDICES)
+        m["envs"][rng.below(len(m["envs"]))] = v
+        return "idx=%d" % v
+    if what == "sub-idx" and m["sub"]:
+        v = rng.choice(MODEL_ENV_INDICES)
+        m["sub"][rng.below(len(m["sub"]))] = v
+        return "sub-idx=%d" % v
+    return "none"
+
+
+def render_model_function(lb, ops, m):
+    """-> (image bytes, model driver line)"""
+    bn = ops.by_name
+    L = lambda k: bytes([lb[k]])
+    w = lambda x: struct.pack("<I", x & 0xFFFFFFFF)
+    retn = w(bn["JOP_RETURN_NIL"])
+
+    def fdef(envs, sub, slots):
+        flags = (FLAG_HASENVS if envs else 0) | (FLAG_HASDEFS if sub is not None else 0)
+        bc = []
+        if sub is not None:
+            bc.append(w(bn["JOP_CLOSURE"] | 0 << 8 | 0 << 16))
+        if envs:
+            bc.append(w(bn["JOP_LOAD_UPVALUE"] | (slots - 1) << 8 | 0 << 16 | 0 << 24))
+        bc.append(retn)
+        o = pushint(flags) + pushint(slots) + pushint(0) + pushint(0) + pushint(0x7fffffff) + pushint(0) + pushint(len(bc))
+        if envs:
+            o += pushint(len(envs))
+        if sub is not None:
+            o += pushint(1)
+        o += b"".join(bc)
+        for e in envs:
+            o += pushint(e)
+        if sub is not None:
+            o += fdef(sub, None, 1)
+        return o
+    img = L("LB_FUNCTION") + pushint(m["len"]) + fdef(m["envs"], m["sub"], 2)
+    for _ in range(m["len"]):
+        img += pushint(0) + pushint(1) + L("LB_NIL")
+    allidx = list(m["envs"]) + list(m["sub"] or [])
+    return img, "function %d %d %s" % (m["len"], len(m["envs"]), " ".join(str(wrap32(e)) for e in allidx))
